@@ -149,6 +149,9 @@ func allowedTimeOrigin(v ssa.Value, depth int) (bool, string) {
 	case nil:
 		return true, "zero time"
 	case *ssa.Extract:
+		if c, ok := x.Tuple.(*ssa.Call); ok {
+			return allowedCallOrigin(c, x.Index, depth+1)
+		}
 		return allowedTimeOrigin(x.Tuple, depth+1)
 	case *ssa.Phi:
 		for _, e := range x.Edges {
@@ -184,6 +187,14 @@ func allowedTimeOrigin(v ssa.Value, depth int) (bool, string) {
 	case *ssa.Const:
 		return true, ""
 	case *ssa.Call:
+		return allowedCallOrigin(x, 0, depth)
+	}
+	return false, fmt.Sprintf("%T", v)
+}
+
+// allowedCallOrigin: the idx-th result of the call is an allowed time value.
+func allowedCallOrigin(x *ssa.Call, idx int, depth int) (bool, string) {
+	{
 		sc := x.Common().StaticCallee()
 		if sc == nil {
 			return false, "dynamic call"
@@ -207,16 +218,33 @@ func allowedTimeOrigin(v ssa.Value, depth int) (bool, string) {
 		}
 		if inRepoFn(sc) {
 			sn := short(sc)
-			switch {
-			case strings.HasSuffix(sn, "system.addMonth"), strings.HasSuffix(sn, "system.addYear"):
-				return allowedTimeOrigin(x.Common().Args[0], depth+1)
-			case strings.Contains(sn, "internal/fhirconv."):
+			if strings.Contains(sn, "internal/fhirconv.") {
 				return true, "" // proto → time.Time conversion helpers (C15)
+			}
+			// a helper of the value layer: what it returns must itself come from allowed
+			// producers (its parameters standing for the arguments, checked here)
+			if strings.HasSuffix(fnPkgPath(sc), "fhirpath/system") && len(sc.Blocks) > 0 {
+				for _, a := range x.Common().Args {
+					if namedName(a.Type()) == "Time" && typeShort(a.Type()) == "time.Time" {
+						if ok, why := allowedTimeOrigin(a, depth+1); !ok {
+							return false, why
+						}
+					}
+				}
+				for _, b := range sc.Blocks {
+					ret, ok := b.Instrs[len(b.Instrs)-1].(*ssa.Return)
+					if !ok || idx >= len(ret.Results) {
+						continue
+					}
+					if ok, why := allowedTimeOrigin(ret.Results[idx], depth+1); !ok {
+						return false, why + " (in " + shortName(name) + ")"
+					}
+				}
+				return true, ""
 			}
 		}
 		return false, "result of " + shortName(name)
 	}
-	return false, fmt.Sprintf("%T", v)
 }
 
 // TIM2 + TIM5
